@@ -6,6 +6,7 @@ import (
 	"strconv"
 	"strings"
 	"testing"
+	"time"
 
 	"golang.org/x/net/context"
 )
@@ -50,6 +51,22 @@ func TestVerifC19(t *testing.T) {
 							if m, ok := TagsFromContext(ctxs[ci]); ok {
 								maps = append(maps, m)
 							}
+						}
+					case "der": // der:<ctx>:<v|c|t|f> : any other derivation - a value, a cancel function, a deadline, the fire-now marker
+						ci, _ := strconv.Atoi(f[1])
+						if ci < len(ctxs) {
+							var nc context.Context
+							switch f[2] {
+							case "v":
+								nc = context.WithValue(ctxs[ci], vCtxKey("verif-other"), len(ctxs))
+							case "c":
+								nc, _ = context.WithCancel(ctxs[ci])
+							case "t":
+								nc, _ = context.WithTimeout(ctxs[ci], time.Hour)
+							default:
+								nc = WithFireNow(ctxs[ci])
+							}
+							ctxs = append(ctxs, nc)
 						}
 					case "mut":
 						mi, _ := strconv.Atoi(f[1])
